@@ -51,7 +51,9 @@ func init() {
 			{Plugin: "sites", Func: "hotline.UploadFolderHandler", Kinds: siteKinds},
 			{Plugin: "sites", Func: "hotline.DownloadFolderHandler", Kinds: siteKinds},
 			{Plugin: "sites", Func: "hotline.DownloadFolderHandler$1", Kinds: []string{"site"}},
-		}, fnItems(nil, "hotline.transactionScanner", "hotline.FieldScanner", "hotline.(*handshake).Write", "hotline.(*transfer).Write")...),
+		}, fnItems(nil, "hotline.transactionScanner", "hotline.FieldScanner", "hotline.(*handshake).Write", "hotline.(*transfer).Write",
+			// a decoded transaction owns its bytes (fields are copied out of the token)
+			"hotline.(*Transaction).Write", "hotline.(*Field).Write")...),
 		Decided: []string{
 			"split functions (transactionScanner, FieldScanner): no token from an incomplete prefix, the token and advance depend only on the bytes, never on atEOF (functional contract, all inputs)",
 			"every chunking copy (io.Copy / io.CopyN) in the connection functions feeds a record parser only from an in-memory reader; the connection is never read with a bare Read (call-site obligations on the real control flow)",
@@ -472,6 +474,8 @@ func init() {
 			// the file-list record is built in place: its length prefix must be the length of the name
 			// bytes that follow (precondition of the FileNameWithInfo cursor at the drain site)
 			{Plugin: "sites", Func: "hotline.GetFileNameList", Kinds: []string{"site", "pre-at-call", "inv-init", "inv-step"}},
+			// the flattened-file header decoder hands the information fork to its record parser in one piece
+			{Plugin: "sites", Func: "hotline.(*flattenedFileObject).ReadFrom", Kinds: []string{"site"}},
 		}, fnItems(nil,
 			"hotline.(*Transaction).Read", "hotline.(*Transaction).Size", "hotline.(*Transaction).Write", "hotline.(*FilePath).Write",
 			"hotline.(*Field).Read", "hotline.NewField", "hotline.(*Field).Write", "hotline.FieldScanner",
